@@ -51,12 +51,29 @@ except:
 
 import numpy as np
 
+def quadrature_weights(tau):
+    """Weights of the interpolatory quadrature rule on the collocation points themselves.
+
+    collocation_coeff integrates the interpolant through the points and the extra node 0,
+    and drops the weight of that node. This weight is nonzero for radau, degree 1
+    (giving B=[0.5] for implicit Euler), so the weights are computed on the points alone."""
+    d = len(tau)
+    B = []
+    for j in range(d):
+        p = np.poly1d([1])
+        for r in range(d):
+            if r != j:
+                p *= np.poly1d([1, -tau[r]]) / (tau[j]-tau[r])
+        B.append(np.polyint(p)(1.0))
+    return vcat(B)
+
 class DirectCollocation(SamplingMethod):
     def __init__(self, degree=4, scheme='radau', **kwargs):
         SamplingMethod.__init__(self, **kwargs)
         self.degree = degree
         self.tau = collocation_points(degree, scheme)
-        [self.C, self.D, self.B] = collocation_coeff(self.tau)
+        [self.C, self.D, _] = collocation_coeff(self.tau)
+        self.B = quadrature_weights(self.tau)
         self.clean()
 
     def clean(self):
